@@ -19,6 +19,7 @@ From SCC Require Import Model.RunWtStages.
 From SCC Require Import Model.RunSizes.
 From SCC Require Import Model.RunHeapA64.
 From SCC Require Import Model.RunHeapRV.
+From SCC Require Import Model.RunHeapLock.
 Open Scope string_scope.
 
 Definition dispatch (cmd : string) (input : string) : string :=
@@ -56,5 +57,6 @@ Definition dispatch (cmd : string) (input : string) : string :=
   | "show-heap-a64" => run_show_heap_a64 input
   | "heap-rv" => run_heap_rv input
   | "c10-rv" => run_c10_rv input
+  | "heaplock-x86" => run_heaplock_x86 input
   | _ => "BAD - unknown command " ++ cmd ++ nl
   end.
